@@ -72,9 +72,10 @@ Definition strip_suffix (t l : list task) : option (list task) :=
 
 (* ---- the per-operation rule of an ordinary list ---- *)
 
-Definition spec_ok (l : list task) (running : option task) (o : op)
+Definition spec_simple (l : list task) (running : option task) (o : op)
            (l' : list task) (ret : option task) : bool :=
   match o with
+  | FilterDuring _ _ => false            (* not a simple operation: see spec_ok *)
   | AddFirst t => tasks_eqb l' (t :: l) && otask_eqb ret None
   | AddLast t => tasks_eqb l' (l ++ [t]) && otask_eqb ret None
   | AddAfter id t =>
@@ -134,6 +135,15 @@ Definition spec_ok (l : list task) (running : option task) (o : op)
               end
           end
       end
+  end.
+
+(* an operation issued by another goroutine while a Filter is in progress happens after it:
+   every operation of the queue is atomic *)
+Definition spec_ok (l : list task) (running : option task) (o : op)
+           (l' : list task) (ret : option task) : bool :=
+  match o with
+  | FilterDuring keep c => spec_simple (filter (fun x => mem_N (tid x) keep) l) running (to_op c) l' ret
+  | _ => spec_simple l running o l' ret
   end.
 
 (* ---- an observation describes a proper list ---- *)
